@@ -28,7 +28,7 @@ import (
 
 func init() {
 	mon.RegisterCfg("C19", mon.Config{
-		Rule: "A: lookup lists from gen/otl restricted to what the language has syntax for (GSUB 1-6, GPOS 1-4, the 8 subsets of -marks/-ligs/-base, || alternatives where the syntax has them) are explained (ExplainGsub/ExplainGpos) and parsed back over fonts with names+cmap, names only, cmap only; each lookup alone and the whole list must come back equal (single substitutions compared as maps). B: descriptions generated from templates with every glyph notation (names, integers, quoted strings via the cmap incl. escapes, ranges, bracketed sets, classes, nested actions, flags, comments) are compared with the result of an independent mini-evaluator. C: arbitrary text (random bytes/runes, token soups, every single-token deletion/duplication/replacement of valid descriptions, unterminated strings, unmapped characters at every string position, very long lines) under GOMAXPROCS 1/2/4/16 with the race detector: Parse must return lookups or an error starting with a line number that exists in the input, must not panic in any goroutine (a panic outside the caller kills the worker and is attributed by the driver), must return before the hard bound, and must leave no goroutine with a frame in opentype/gtab/builder behind (census after every call, polling up to 2 s). distinct = distinct descriptions (hash); stratum roundtrip-font-changed: the same *sfnt.Font is described again after in-place changes (cmap permuted or removed, glyphs renamed, names removed) and the round trip must hold with the labels the font has now",
+		Rule: "A: lookup lists from gen/otl restricted to what the language has syntax for (GSUB 1-6, GPOS 1-4, the 8 subsets of -marks/-ligs/-base, || alternatives where the syntax has them) are explained (ExplainGsub/ExplainGpos) and parsed back over fonts with names+cmap, names only, cmap only; each lookup alone and the whole list must come back equal (single substitutions compared as maps). B: descriptions generated from templates with every glyph notation (names, integers, quoted strings via the cmap incl. escapes, ranges, bracketed sets, classes, nested actions, flags, comments) are compared with the result of an independent mini-evaluator. C: arbitrary text (random bytes/runes, token soups, every single-token deletion/duplication/replacement of valid descriptions, unterminated strings, unmapped characters at every string position, very long lines) under GOMAXPROCS 1/2/4/16 with the race detector: Parse must return lookups or an error starting with a line number that exists in the input, must not panic in any goroutine (a panic outside the caller kills the worker and is attributed by the driver), must return before the hard bound, and must leave no goroutine with a frame in opentype/gtab/builder behind (census after every call, polling up to 2 s). distinct = distinct descriptions (hash); stratum roundtrip-font-changed: the same *sfnt.Font is described again after in-place changes (cmap permuted or removed, glyphs renamed, names removed) and the round trip must hold with the labels the font has now Stratum error-line: comments do not change the error of a broken description, and the error names the broken line.",
 		Assumptions: []string{
 			"expressible fragment: glyph names are lexable identifiers that are not keywords of the language; cmap characters are printable (a separate class probes non-printable ones); value records are nil or have a non-zero x/y/dx; alternates are sets; classes are contiguous and non-empty; mark classes 0..k-1 are all in use",
 			"a line number is a number between 1 and the number of lines of the input (+1 for the position after a final newline)",
